@@ -19,6 +19,12 @@ NEUTRAL = [
     ("n09", "redundant clone removed in setup", MAIN, [("    let app_context_parsed = setup_context(&args.config, args.check);\n\n    let app_context = match app_context_parsed", "    let app_context = match setup_context(&args.config, args.check)")]),
     ("n10", "condition written the other way round", GEN, [("            if insert_pos < unwritten_content_start_pos", "            if unwritten_content_start_pos > insert_pos")]),
     ("n11", "early-return style for the cache switch (same behaviour)", CTX, [("        if !self.config.use_cache\n        {\n            return;\n        }", "        if self.config.use_cache == false\n        {\n            return;\n        }")]),
+    ("n13", "local for the argument start in find", RP, [("                    let mut kvp_spans: Vec<(pest::Span, Option<pest::Span>)> = Vec::new();", "                    let mut kvp_spans: Vec<(pest::Span, Option<pest::Span>)> = Vec::new();\n                    let args_start = rule_ref_container_span.start();"),
+                                                          ("                            rule_ref_container_span.start(),\n                            &RUST_COMMENT_PATTERN,", "                            args_start,\n                            &RUST_COMMENT_PATTERN,")]),
+    ("n14", "local for the configuration in generate_code", GEN, [("        context.cache_next_reference_id(\n            next_reference_id.load(std::sync::atomic::Ordering::Relaxed),\n            context.config.config_dir.as_str(),\n        );", "        let lock_dir = context.config.config_dir.as_str();\n        context.cache_next_reference_id(\n            next_reference_id.load(std::sync::atomic::Ordering::Relaxed),\n            lock_dir,\n        );")]),
+    ("n15", "blank test written with len()", CP, [("        if line.is_empty()\n        {\n            continue;\n        }", "        if line.len() == 0\n        {\n            continue;\n        }")]),
+    ("n16", "usize arithmetic reassociated", GEN, [("            created_entries += 1;", "            created_entries = 1 + created_entries;")]),
+    ("n17", "match instead of if-let on the temp file result", GEN, [("        if let Err(e) = scratch_file.file().flush().await\n        {", "        if let Err(e) = scratch_file.file().flush().await\n        {\n            /* flush failed */")]),
     ("n12", "ref key constant spelled via a local", RP, [("                        let ref_kvp_key: &str = get_name_for_ref_kvp_key();", "                        let key_name = get_name_for_ref_kvp_key();\n                        let ref_kvp_key: &str = key_name;")]),
 ]
 props = sorted(registry.PROPS)
